@@ -25,7 +25,10 @@ Proof. exact C15_no_include_proof. Qed.
 Print Assumptions C15_no_include.
 
 Theorem C15_scan_is_splice :
-  forall files main depth c, flookup files main = Some c ->
-    scan_file Gen_Lexer.rules depth files [main] main c = splice Gen_Lexer.rules files depth [main] main.
-Proof. exact C14_scan_proof. Qed.
+  forall rules files,
+  (forall fuel s line k text l' rest,
+      next_token fuel rules s line = Some (k, text, l', rest) -> tk_eqb k UNKNOWN = false) ->
+  forall d active fn c, flookup files fn = Some c ->
+    scan_file rules d files active fn c = splice rules files d active fn.
+Proof. exact scan_file_splice. Qed.
 Print Assumptions C15_scan_is_splice.
